@@ -115,8 +115,14 @@ class FuncEffects:
         if isinstance(t, ast.Name):
             self.assigns.setdefault(t.id, []).append(src)
         elif isinstance(t, (ast.Tuple, ast.List)):
+            kind, v = src
+            if kind == "expr" and isinstance(v, (ast.Tuple, ast.List)) and len(v.elts) == len(t.elts) and \
+                    not any(isinstance(x, ast.Starred) for x in list(v.elts) + list(t.elts)):
+                # `a, b = x, y`: each target is bound to its own expression (parallel assignment of a display)
+                for e, ve in zip(t.elts, v.elts):
+                    self._bind_target(e, ("expr", ve))
+                return
             for e in t.elts:
-                kind, v = src
                 self._bind_target(e, ("elem", v) if kind in ("expr", "elem") else src)
         elif isinstance(t, ast.Starred):
             self._bind_target(t.value, src)
@@ -425,6 +431,11 @@ class Effects:
                             # `param += x` rebinds for bytes/str/tuple but extends a bytearray/list argument in place; annotations
                             # are not enforced and the byte-string parameters of this package accept bytearray
                             o = PARAM
+                        if isinstance(node, ast.AugAssign) and isinstance(node.value, ast.Constant) and \
+                                isinstance(node.value.value, (int, float)) and not isinstance(node.value.value, bool):
+                            # `k += 1`, `e >>= 1`: a numeric right operand — a container on the left would raise TypeError, a number
+                            # is rebound; nothing is mutated either way
+                            o = IMMUT
                         # rebinding for immutable values; in-place for lists & co
                         self.sites.append(Site(f, node, "aug-name", tt.id, o))
                         self._note_param_mutation(fe, tt, o)
